@@ -2,18 +2,18 @@ SPECIFICATION Spec
 CONSTANTS
   RealPts <- RP
   VarNames <- VN
-  PlateNames <- PN
+  PlateNames <- PN3
   VarSize = 2
   PlateSize = 2
   Scales = {1}
-  MaxFactors = 2
-  Plus = "max"
+  MaxFactors = 3
+  Plus = "add"
   Times = "mul"
-  LeafKind = "nonneg"
-  CopyCap = 99
-  ElimAll = FALSE
+  LeafKind = "lin"
+  CopyCap = 6
+  ElimAll = TRUE
   Param = FALSE
-  Tag = "sp_maxmul"
+  Tag = "sp_crossed3"
 INVARIANT Inv_OracleInputs
 INVARIANT Emit
 CHECK_DEADLOCK FALSE
